@@ -390,6 +390,28 @@ def gen_udptc(rng, n):
     return out
 
 
+def gen_round7(rng, thorough):
+    """OS-level / real-time / virtual-time shapes: (a) a REAL loopback TCP application that half-closes and reads (4 KB receive
+    buffer) only after Bidirectional has returned; (b) a steady trickle of small datagrams that must leave through the timed flush
+    while the flow continues (about 25 ms of real time each); (c) a long one-way tunnel->UDP feed through the real
+    UDPVirtualConn with the adapter's cleanup pass after every datagram, in virtual time"""
+    out = []
+    resp = (rand_bytes(rng, 251) * 1100)[:256 * 1024]
+    out.append({"mode": "tcpreal", "big": True,
+                "a": {"data": b"GET / HTTP/1.0\r\n\r\n".hex(), "cuts": [], "end": 0, "wlimit": -1, "gate": -1},
+                "b": {"data": resp.hex(), "cuts": rng.choice([[], [70000] * 4]), "end": 0, "wd": rng.random() < 0.5,
+                      "wlimit": -1, "gate": 0}})
+    for _ in range(3 if thorough else 1):
+        out.append({"mode": "udptrickle", "trickle": 400})
+    for i in range(12 if thorough else 3):
+        k = rng.choice([9, 12, 30])
+        ds, s = _records(rng, k, [1, 3, 40])
+        out.append({"mode": "vconn", "feed_age_s": rng.choice([10, 10, 25, 59]),
+                    "tunnel": {"data": s.hex(), "cuts": [2 + len(d) for d in ds], "end": 0, "wd": False, "wlimit": -1,
+                               "gate": -1, "wrap": 0}})
+    return out
+
+
 def corpus():
     d = os.path.join(vlib.VERIF, "corpus", "C12")
     out = []
@@ -487,12 +509,16 @@ def describe(c):
     if c["mode"] == "rt":
         return "rt dgram sizes %s cut=%s cuts=%s end=%s wd=%s" % ([len(x) // 2 for x in c["dgrams"]][:12], c.get("cut"),
                                                                  (c["tunnel"].get("cuts") or [])[:8], c["tunnel"].get("end"), c["tunnel"].get("wd"))
+    if c["mode"] == "tcpreal":
+        return "tcpreal request %d bytes, response %d bytes" % (len(c["a"]["data"]) // 2, len(c["b"]["data"]) // 2)
+    if c["mode"] == "udptrickle":
+        return "udptrickle up to %d datagrams 2 ms apart" % c.get("trickle", 0)
     if c["mode"] == "udptc":
         return "udptc datagram sizes %s cut=%s cuts=%s" % ([len(x) // 2 for x in c["dgrams"]], c.get("cut"), (c["tunnel"].get("cuts") or [])[:8])
     if c["mode"] == "udpgate":
         return "udpgate pre=%d datagram sizes %s" % (c["pre"], [len(x) // 2 for x in c["dgrams"]])
     if c["mode"] in ("udp", "udpreal", "vconn"):
-        return "%s tunnel=%s(%d bytes) cuts=%s end=%s wd=%s" % (c["mode"], c["tunnel"]["data"][:60], len(c["tunnel"]["data"]) // 2,
+        return "%s%s tunnel=%s(%d bytes) cuts=%s end=%s wd=%s" % (c["mode"], (" feed_age_s=%s" % c["feed_age_s"]) if c.get("feed_age_s") else "", c["tunnel"]["data"][:60], len(c["tunnel"]["data"]) // 2,
                                                              (c["tunnel"].get("cuts") or [])[:8], c["tunnel"].get("end"), c["tunnel"].get("wd"))
     return "tcp |A|=%d |B|=%d gateA=%s gateB=%s wlimitA=%s wlimitB=%s wrapA=%s wrapB=%s" % (
         len(c["a"]["data"]) // 2, len(c["b"]["data"]) // 2, c["a"]["gate"], c["b"]["gate"], c["a"]["wlimit"], c["b"]["wlimit"],
@@ -508,7 +534,7 @@ def run(ctx, only_cases=None):
     try:
         pinfo = vlib.coq_properties("C12")
         vlib.proof_coverage(ctx, pinfo, "make -C coq Properties/C12.vo && coqc Properties/C12.v (Print Assumptions audit)",
-                            extra_obligations=10)   # the regenerated side conditions of Proofs/SideC12.v
+                            extra_obligations=12)   # the regenerated side conditions of Proofs/SideC12.v
     except vlib.Broken as b:
         broken = b
 
@@ -532,6 +558,7 @@ def run(ctx, only_cases=None):
         cases += gen_udp_gate_flush(rng, 40 if thorough else 8)
         cases += gen_failure_kinds(rng, thorough)
         cases += gen_udptc(rng, 300 if thorough else 45)
+        cases += gen_round7(rng, thorough)
     outs = run_batch(binary, cases)
 
     # (iii) the property's predicate, evaluated by the harness on the real relays' own outputs
@@ -587,7 +614,9 @@ def run(ctx, only_cases=None):
             "real_udpconn_batch_path": 0, "real_udpconn_records_per_case": [], "real_udpconn_retried": 0, "real_udpconn_skipped": 0,
             "real_udpvirtualconn_slow_socket": 0, "stalled_tunnel_write_during_timed_flush": 0,
             "endpoints_with_empty_reads": 0, "read_failure_kinds": {str(k): 0 for k in range(10)},
-            "half_close_enforcing_endpoints": 0, "socks_udp_tunnel_conn": 0, "tcp_idle_after_half_close": 0}
+            "half_close_enforcing_endpoints": 0, "socks_udp_tunnel_conn": 0, "tcp_idle_after_half_close": 0,
+            "real_tcp_half_closed_slow_reader": 0, "real_tcp_skipped": 0, "udp_trickle_real_time": 0,
+            "udp_trickle_first_write_ms": [], "virtual_time_one_way_feed": 0}
     for c in cases:
         for key in ("tunnel", "a", "b"):
             sp = c.get(key)
@@ -615,6 +644,12 @@ def run(ctx, only_cases=None):
             dist["end_with_last_chunk"] += 1 if c["tunnel"].get("wd") else 0
             if u2.get("n_delivered", 0) >= 1 and c.get("cut", -1) >= 0:
                 nontrivial.add(h)
+        elif c["mode"] == "tcpreal":
+            dist["real_tcp_half_closed_slow_reader"] += 1
+            dist["real_tcp_skipped"] += 1 if (o.get("tr") or {}).get("skipped") else 0
+        elif c["mode"] == "udptrickle":
+            dist["udp_trickle_real_time"] += 1
+            dist["udp_trickle_first_write_ms"].append((o.get("tk") or {}).get("first_tunnel_write_ms"))
         elif c["mode"] == "udptc":
             dist["socks_udp_tunnel_conn"] += 1
             if (o.get("tc") or {}).get("n_delivered", 0) >= 2:
@@ -625,6 +660,8 @@ def run(ctx, only_cases=None):
                 nontrivial.add(h)
         elif c["mode"] in ("udpreal", "vconn"):
             r = o.get("r") or {}
+            if c.get("feed_age_s"):
+                dist["virtual_time_one_way_feed"] += 1
             if c["mode"] == "udpreal":
                 dist["real_udpconn_batch_path"] += 1
                 dist["real_udpconn_records_per_case"].append(r.get("n_delivered", 0))
@@ -687,6 +724,10 @@ def run(ctx, only_cases=None):
         "local writer sub-slices of its re-assembly buffer, valid only until flush() returns, so the UDP side's Write must not "
         "retain p (io.Writer contract). Checked on the real mapping.UDPVirtualConn (built by the adapter's getOrCreateSession) over "
         "a gated slow socket whose sends are held until the relay has consumed the whole tunnel stream, and on a real *net.UDPConn",
+        "real time is used in exactly one shape (udptrickle, ~25 ms per case, bound 2 s only reached on failure): the local side "
+        "keeps trickling until the tunnel has seen a Write, so the verdict does not depend on how late the ticker fires; tcpreal "
+        "is gated on Bidirectional returning (no sleeps), skipped if loopback TCP is unavailable; the session-TTL feed runs in "
+        "virtual time (VerifAge shifts lastActive, VerifCleanup = one cleanup pass)",
         "every stream endpoint ENFORCES its half-close (a Write after CloseWrite fails) unless the case says lax; there is no "
         "CloseRead in the relay code, so read-side shutdown is not a dimension",
         "read failures are sticky (every further Read reports the same error); kinds: EOF, plain, io.ErrUnexpectedEOF, "
